@@ -51,7 +51,7 @@ theorem merge_value_rule (l r : Ctx) (hu : UniqueKeys (stripInternal r.data)) (k
       | none => get? (stripInternal l.data) k
       | some v => match get? (stripInternal l.data) k with
         | none => some v
-        | some lval => some (mergeVal l.vers r.vers k lval v) := by
+        | some lval => some (mergeVal l.vers r.vers (esc k) lval v) := by
   unfold mergeByVersion
   exact mergeKv_get _ _ _ _ _ hu k
 
@@ -72,7 +72,7 @@ theorem merge_dict_rule (lv rv : Vers) (p : String) (akv bkv : Dict) (hu : Uniqu
       | none => get? akv k
       | some v => match get? akv k with
         | none => some v
-        | some lval => some (mergeVal lv rv (p ++ "." ++ k) lval v) :=
+        | some lval => some (mergeVal lv rv (p ++ "." ++ esc k) lval v) :=
   mergeKv_get _ _ _ _ _ hu k
 
 /-- the closed form at a LEAF PATH `k0.k1...kn` that both contexts hold (or lack the variable of): the
@@ -85,7 +85,7 @@ theorem merge_leaf_rule (l r : Ctx) (k0 : String) (rest : List String) (hk : k0 
       | none => getPath l.data k0 rest
       | some y => match getPath l.data k0 rest with
         | none => some y
-        | some x => if ver r.vers (keyOf k0 rest) > ver l.vers (keyOf k0 rest) then some y else some x :=
+        | some x => if ver r.vers (keyOf (esc k0) rest) > ver l.vers (keyOf (esc k0) rest) then some y else some x :=
   (merge_at_path k0 rest hk l r hl hr).2.2
 
 /-- "a value published inside one branch is never replaced at a join by a stale copy another branch
@@ -96,7 +96,7 @@ theorem merge_leaf_rule (l r : Ctx) (k0 : String) (rest : List String) (hk : k0 
 theorem stale_copy_never_wins (l r : Ctx) (k0 : String) (rest : List String) (hk : k0 ≠ "__task_execution")
     (hur : UniqueKeys r.data) (x : Val) (hl : getPath l.data k0 rest = some x) (hx : x.isObj = false)
     (hshape : ∀ b, get? r.data k0 = some b → NoLeafAbove b rest ∧ UniqAlong b rest)
-    (hstale : ver r.vers (keyOf k0 rest) ≤ ver l.vers (keyOf k0 rest)) :
+    (hstale : ver r.vers (keyOf (esc k0) rest) ≤ ver l.vers (keyOf (esc k0) rest)) :
     getPath (mergeByVersion l r).data k0 rest = some x := by
   have hsl : get? (stripInternal l.data) k0 = get? l.data k0 := get?_erase_other _ _ _ (fun e => hk e.symm)
   have hsr : get? (stripInternal r.data) k0 = get? r.data k0 := get?_erase_other _ _ _ (fun e => hk e.symm)
@@ -110,7 +110,7 @@ theorem stale_copy_never_wins (l r : Ctx) (k0 : String) (rest : List String) (hk
     | none => exact hl
     | some b =>
       obtain ⟨h1, h2⟩ := hshape b hgb
-      exact mergeVal_stale _ _ rest k0 a b x hl hx h1 h2 hstale
+      exact mergeVal_stale _ _ rest (esc k0) a b x hl hx h1 h2 hstale
 
 /-- ... and a strictly newer leaf always wins, at any depth (the left value of the variable has not
     another shape above the path). -/
@@ -118,7 +118,7 @@ theorem newer_value_wins (l r : Ctx) (k0 : String) (rest : List String) (hk : k0
     (hur : UniqueKeys r.data) (y : Val) (hr : getPath r.data k0 rest = some y) (hy : y.isObj = false)
     (hua : ∀ b, get? r.data k0 = some b → UniqAlong b rest)
     (hshape : ∀ a, get? l.data k0 = some a → NoLeafAbove a rest)
-    (hnew : ver l.vers (keyOf k0 rest) < ver r.vers (keyOf k0 rest)) :
+    (hnew : ver l.vers (keyOf (esc k0) rest) < ver r.vers (keyOf (esc k0) rest)) :
     getPath (mergeByVersion l r).data k0 rest = some y := by
   have hsl : get? (stripInternal l.data) k0 = get? l.data k0 := get?_erase_other _ _ _ (fun e => hk e.symm)
   have hsr : get? (stripInternal r.data) k0 = get? r.data k0 := get?_erase_other _ _ _ (fun e => hk e.symm)
@@ -130,7 +130,7 @@ theorem newer_value_wins (l r : Ctx) (k0 : String) (rest : List String) (hk : k0
     simp only [hgb] at hr
     cases hga : get? l.data k0 with
     | none => exact hr
-    | some a => exact mergeVal_newer _ _ rest k0 a b y hr hy (hshape a hga) (hua b hgb) hnew
+    | some a => exact mergeVal_newer _ _ rest (esc k0) a b y hr hy (hshape a hga) (hua b hgb) hnew
 
 /-- Order independence at a join (commutativity up to ties), at any depth: for two contexts that hold a
     leaf at the path (or lack the variable) and are CONSISTENT there (equal versions of the path carry
@@ -139,9 +139,9 @@ theorem newer_value_wins (l r : Ctx) (k0 : String) (rest : List String) (hk : k0
 theorem merge_order_independent_partial (a b : Ctx) (k0 : String) (rest : List String)
     (hk : k0 ≠ "__task_execution") (ha : ShapeOK k0 rest a) (hb : ShapeOK k0 rest b)
     (hcons : ∀ va vb, getPath a.data k0 rest = some va → getPath b.data k0 rest = some vb →
-      ver a.vers (keyOf k0 rest) = ver b.vers (keyOf k0 rest) → va = vb) :
+      ver a.vers (keyOf (esc k0) rest) = ver b.vers (keyOf (esc k0) rest) → va = vb) :
     getPath (mergeByVersion a b).data k0 rest = getPath (mergeByVersion b a).data k0 rest ∧
-    ver (mergeByVersion a b).vers (keyOf k0 rest) = ver (mergeByVersion b a).vers (keyOf k0 rest) := by
+    ver (mergeByVersion a b).vers (keyOf (esc k0) rest) = ver (mergeByVersion b a).vers (keyOf (esc k0) rest) := by
   obtain ⟨_, hv1, hp1⟩ := merge_at_path k0 rest hk a b ha hb
   obtain ⟨_, hv2, hp2⟩ := merge_at_path k0 rest hk b a hb ha
   refine ⟨?_, by rw [hv1, hv2]; omega⟩
@@ -153,10 +153,10 @@ theorem merge_order_independent_partial (a b : Ctx) (k0 : String) (rest : List S
     | none => simp
     | some vb =>
       simp only
-      by_cases h1 : ver b.vers (keyOf k0 rest) > ver a.vers (keyOf k0 rest)
-      · have h2 : ¬ (ver a.vers (keyOf k0 rest) > ver b.vers (keyOf k0 rest)) := by omega
+      by_cases h1 : ver b.vers (keyOf (esc k0) rest) > ver a.vers (keyOf (esc k0) rest)
+      · have h2 : ¬ (ver a.vers (keyOf (esc k0) rest) > ver b.vers (keyOf (esc k0) rest)) := by omega
         simp [h1, h2]
-      · by_cases h2 : ver a.vers (keyOf k0 rest) > ver b.vers (keyOf k0 rest)
+      · by_cases h2 : ver a.vers (keyOf (esc k0) rest) > ver b.vers (keyOf (esc k0) rest)
         · simp [h1, h2]
         · have := hcons va vb hga hgb (by omega)
           simp [h1, h2, this]
@@ -167,8 +167,8 @@ theorem merge_associative (a b c : Ctx) (k0 : String) (rest : List String) (hk :
     (ha : ShapeOK k0 rest a) (hb : ShapeOK k0 rest b) (hc : ShapeOK k0 rest c) :
     getPath (mergeByVersion (mergeByVersion a b) c).data k0 rest =
       getPath (mergeByVersion a (mergeByVersion b c)).data k0 rest ∧
-    ver (mergeByVersion (mergeByVersion a b) c).vers (keyOf k0 rest) =
-      ver (mergeByVersion a (mergeByVersion b c)).vers (keyOf k0 rest) := by
+    ver (mergeByVersion (mergeByVersion a b) c).vers (keyOf (esc k0) rest) =
+      ver (mergeByVersion a (mergeByVersion b c)).vers (keyOf (esc k0) rest) := by
   obtain ⟨sab, vab, _⟩ := merge_at_path k0 rest hk a b ha hb
   obtain ⟨sbc, vbc, _⟩ := merge_at_path k0 rest hk b c hb hc
   obtain ⟨_, v1, _⟩ := merge_at_path k0 rest hk _ c sab hc
@@ -193,10 +193,10 @@ theorem later_publish_wins_partial (c : Ctx) (pub : Dict) (k0 : String) (rest : 
     getPath (mergeByVersion c (outbound c pub)).data k0 rest = getPathVal v rest ∧
     getPath (mergeByVersion (outbound c pub) c).data k0 rest = getPathVal v rest := by
   obtain ⟨y, hy, hyo⟩ := LeafPath.get rest v hleaf
-  have hm : keyOf k0 rest ∈ leafKeysKv none pub :=
-    leafKeysKv_mem_of_get? none _ pub k0 v hk0 (by rw [path_none]; exact leafKey_mem rest k0 v hleaf)
-  have hver : ver c.vers (keyOf k0 rest) < ver (outbound c pub).vers (keyOf k0 rest) := by
-    have : 0 < (leafKeysKv none pub).count (keyOf k0 rest) := List.count_pos_iff.mpr hm
+  have hm : keyOf (esc k0) rest ∈ leafKeysKv none pub :=
+    leafKeysKv_mem_of_get? none _ pub k0 v hk0 (by rw [path_none]; exact leafKey_mem rest (esc k0) v hleaf)
+  have hver : ver c.vers (keyOf (esc k0) rest) < ver (outbound c pub).vers (keyOf (esc k0) rest) := by
+    have : 0 < (leafKeysKv none pub).count (keyOf (esc k0) rest) := List.count_pos_iff.mpr hm
     unfold outbound; simp only [ver_bump]; omega
   have hget : get? (outbound c pub).data k0 = some v := by
     unfold outbound; rw [get?_update_unique _ _ hup k0, hk0]
